@@ -18,6 +18,7 @@ import (
 	"github.com/chihaya/chihaya/bittorrent"
 	"github.com/chihaya/chihaya/frontend/udp"
 	"github.com/chihaya/chihaya/middleware"
+	clog "github.com/chihaya/chihaya/pkg/log"
 	"github.com/chihaya/chihaya/storage"
 )
 
@@ -126,11 +127,21 @@ func c09MkErr(client bool, chain []string) error {
 }
 
 func c09Error(o *Out, kind string, txid []byte, client bool, chain []string) {
+	c09ErrorD(o, kind, txid, client, chain, false)
+	// ... and with debug logging on (chihaya --debug): what is logged may grow, what is sent may not
+	c09ErrorD(o, kind+"-debug", txid, client, chain, true)
+}
+
+func c09ErrorD(o *Out, kind string, txid []byte, client bool, chain []string, debug bool) {
+	if debug {
+		clog.SetDebug(true)
+		defer clog.SetDebug(false)
+	}
 	var cj []interface{}
 	for _, s := range chain {
 		cj = append(cj, hx([]byte(s)))
 	}
-	in := map[string]interface{}{"t": "err", "txid": hx(txid), "client": client, "chain": cj}
+	in := map[string]interface{}{"t": "err", "txid": hx(txid), "client": client, "chain": cj, "debug": debug}
 	err := c09MkErr(client, chain)
 	var ce bittorrent.ClientError
 	isClient := errors.As(err, &ce)
@@ -235,7 +246,7 @@ func c09Replay(o *Out, in map[string]interface{}) error {
 		for _, x := range l {
 			chain = append(chain, string(unhx(x)))
 		}
-		c09Error(o, "replay", txid, jBool(in["client"]), chain)
+		c09ErrorD(o, "replay", txid, jBool(in["client"]), chain, jBool(in["debug"]))
 	case "hscr":
 		var ihs [][]byte
 		l, _ := in["ihs"].([]interface{})
@@ -252,6 +263,7 @@ func c09Replay(o *Out, in map[string]interface{}) error {
 var _ io.Writer = (*bytes.Buffer)(nil)
 
 func c09Stream(o *Out, rng *rand.Rand, n int) {
+	clog.SetOutput(io.Discard)
 	randTx := func() []byte {
 		b := make([]byte, 4)
 		rng.Read(b)
